@@ -177,6 +177,15 @@ def is_generator(fi: FunctionInfo) -> bool:
     return any(isinstance(n, (ast.Yield, ast.YieldFrom)) for n in _walk_own(fi.node.body))
 
 
+class NeedSplit(Exception):
+    """Raised by a transfer function that needs the truth of a condition the path has not decided (a selector of
+    itertools.compress): exec_stmt re-executes the statement once with the condition and once with its negation."""
+
+    def __init__(self, cond: Term) -> None:
+        super().__init__("case split needed")
+        self.cond = cond
+
+
 class Unsupported(Exception):
     pass
 
@@ -508,14 +517,37 @@ class Interp:
         self._serial = getattr(self, "_serial", 0) + 1
         prev_serial = getattr(self, "cur_serial", None)
         self.cur_serial = self._serial
+        snap: Optional[State] = None
+        if self._may_need_split(node):
+            snap = st.fork()
         try:
             if isinstance(node, (ast.Return, ast.Assign, ast.Expr, ast.AnnAssign)) and getattr(node, "value", None) is not None:
                 hoisted = self._hoist_nested_awaits(node)
                 if hoisted is not None:
                     return self.exec_block(hoisted, st, ctx)
             return m(node, st, ctx)
+        except NeedSplit as ns:
+            if snap is None or getattr(self, "_split_depth", 0) >= 8 or decided_by(snap.pc, ns.cond) is not None:
+                raise AnalysisError(f"value-dependent selection at {ctx.loc(node)} needs a case split this statement is not prepared for")
+            other = snap.fork()
+            snap.pc.append(ns.cond)
+            other.pc.append(neg(ns.cond))
+            self._split_depth = getattr(self, "_split_depth", 0) + 1
+            try:
+                return self.exec_stmt(node, snap, ctx) + self.exec_stmt(node, other, ctx)
+            finally:
+                self._split_depth -= 1
         finally:
             self.cur_serial = prev_serial
+
+    def _may_need_split(self, node: ast.stmt) -> bool:
+        """Statements that mention itertools.compress are executed on a snapshot-backed state (see NeedSplit)."""
+        memo = self.__dict__.setdefault("_split_memo", {})
+        r = memo.get(id(node))
+        if r is None:
+            r = memo[id(node)] = (not isinstance(node, (ast.If, ast.For, ast.While, ast.With, ast.Try, ast.FunctionDef, ast.AsyncFunctionDef, ast.ClassDef, ast.AsyncFor, ast.AsyncWith, ast.Match))
+                                  and any((isinstance(n, ast.Name) and n.id == "compress") or (isinstance(n, ast.Attribute) and n.attr == "compress") for n in ast.walk(node)))
+        return r
 
     def _hoist_nested_awaits(self, node: Any) -> Optional[List[ast.stmt]]:
         """`return C(await f(x))` -> `$aw1 = await f(x); return C($aw1)`.  An awaited call nested inside the
@@ -1067,14 +1099,22 @@ class Interp:
         """`while chunk := stream.read(n): body` over an in-memory stream at a known position, where the body neither
         touches the stream nor breaks, is `for chunk in <consecutive n-chunks of the rest of the buffer>: body`."""
         t = node.test
-        if not (isinstance(t, ast.NamedExpr) and isinstance(t.target, ast.Name) and isinstance(t.value, ast.Call) and isinstance(t.value.func, ast.Attribute)
-                and t.value.func.attr == "read" and isinstance(t.value.func.value, ast.Name) and len(t.value.args) == 1 and not t.value.keywords):
+        if not (isinstance(t, ast.NamedExpr) and isinstance(t.target, ast.Name) and isinstance(t.value, ast.Call)):
             return None
-        rname = t.value.func.value.id
+        call_ = t.value
+        if (isinstance(call_.func, ast.Attribute) and call_.func.attr == "read" and isinstance(call_.func.value, ast.Name) and len(call_.args) == 1 and not call_.keywords):
+            rname, n_node, want = call_.func.value.id, call_.args[0], "bytesio"
+        elif (isinstance(call_.func, ast.Name) and call_.func.id == "bytes" and len(call_.args) == 1 and not call_.keywords and isinstance(call_.args[0], ast.Call)
+              and len(call_.args[0].args) == 2 and not call_.args[0].keywords and isinstance(call_.args[0].args[0], ast.Name)
+              and self.eval(call_.func, st, ctx) == ("builtin", "bytes") and self.eval(call_.args[0].func, st, ctx) == ("ext", "itertools.islice")):
+            # `while chunk := bytes(islice(it, n))` over an iterator of a byte string: the same consecutive n-chunks
+            rname, n_node, want = call_.args[0].args[0].id, call_.args[0].args[1], "byteiter"
+        else:
+            return None
         rv = st.env.get(rname)
-        if not (isinstance(rv, tuple) and rv[0] == "obj" and st.heap[rv[1]].name == "bytesio"):
+        if not (isinstance(rv, tuple) and rv[0] == "obj" and st.heap[rv[1]].name == want):
             return None
-        n = self.eval(t.value.args[0], st, ctx)
+        n = self.eval(n_node, st, ctx)
         ho = st.heap[rv[1]]
         pos = ho.fields["pos"]
         if not (is_c(n) and isinstance(n[1], int) and not isinstance(n[1], bool) and n[1] > 0 and is_c(pos) and isinstance(pos[1], int)):
@@ -1439,6 +1479,8 @@ class Interp:
             elif ho.name.startswith("gen:"):
                 if ho.fields.get("$born") != c(getattr(self, "cur_serial", None)):
                     raise AnalysisError(f"one-shot iterator {ho.name.split(':', 1)[1]} is consumed in a later statement than the one that created it at {ctx.loc(node)}: lazy evaluation order (and a second consumption, which finds it empty) is not modelled")
+            if ho.name == "byteiter":
+                raise AnalysisError(f"iteration over an iterator of a byte string at {ctx.loc(node)}: not modelled")
             if ho.kind in ("list", "set") and not ho.symbolic:
                 return list(ho.items)
             if ho.kind == "dict" and not ho.symbolic:
@@ -2548,6 +2590,25 @@ class Interp:
                 st.env = env
                 try:
                     return self.eval(body[0].value, st, Ctx(fv[3], fv[3].module if fv[3] else ctx.module, ctx.depth))
+                finally:
+                    st.env = saved
+            if (body and isinstance(body[-1], ast.Return) and body[-1].value is not None and not a_.vararg and not a_.kwarg and not a_.kwonlyargs and not a_.defaults
+                    and len(a_.args) == len(args) and not lam.decorator_list and all(isinstance(b, (ast.Assign, ast.AnnAssign)) for b in body[:-1])
+                    and not any(isinstance(n, (ast.Nonlocal, ast.Global, ast.Yield, ast.YieldFrom, ast.Await)) for b in body for n in ast.walk(b))):
+                # straight-line local function: assignments to its own locals, then one return; each statement must
+                # continue on exactly one path (no fork inside an expression position)
+                saved = st.env
+                env = dict(closure)
+                env.update({k: v for k, v in saved.items() if k not in env})
+                env.update(dict(zip([x.arg for x in a_.args], args)))
+                st.env = env
+                nctx = Ctx(fv[3], fv[3].module if fv[3] else ctx.module, ctx.depth)
+                try:
+                    for b in body[:-1]:
+                        res = self.exec_stmt(b, st, nctx)
+                        if len(res) != 1 or res[0][1] is not None or res[0][0] is not st:
+                            raise AnalysisError(f"nested def call at {ctx.loc(node)}: a statement of the local function forks")
+                    return self.eval(body[-1].value, st, nctx)
                 finally:
                     st.env = saved
         raise AnalysisError(f"nested def call at {ctx.loc(node)}")
